@@ -1295,7 +1295,8 @@ namespace bloch::compiler {
                     }
                     TypeInfo pt = typeFromAst(p->type.get());
                     if (!f.type.className.empty()) {
-                        if (pt.className != f.type.className) {
+                        // the whole type, type arguments included (Box<string> is not Box<int>)
+                        if (!typeEquals(pt, f.type)) {
                             throw BlochError(ErrorCategory::Semantic, p->line, p->column,
                                              "default constructor parameter '" + p->name +
                                                  "' must match field type '" + f.type.className +
